@@ -112,13 +112,18 @@ func (s *httpServer) doLookup(w http.ResponseWriter, req *http.Request, ps httpr
 		return nil, http_api.Err{400, "MISSING_ARG_TOPIC"}
 	}
 
-	registration := s.nsqlookupd.DB.FindRegistrations("topic", topicName, "")
+	// the topic, its channels and its producers are read in one critical section: a
+	// concurrent REGISTER, /channel/create or /topic/delete is seen entirely or not at all
+	s.nsqlookupd.DB.RLock()
+	defer s.nsqlookupd.DB.RUnlock()
+
+	registration := s.nsqlookupd.DB.findRegistrations("topic", topicName, "")
 	if len(registration) == 0 {
 		return nil, http_api.Err{404, "TOPIC_NOT_FOUND"}
 	}
 
-	channels := s.nsqlookupd.DB.FindRegistrations("channel", topicName, "*").SubKeys()
-	producers := s.nsqlookupd.DB.FindProducers("topic", topicName, "")
+	channels := s.nsqlookupd.DB.findRegistrations("channel", topicName, "*").SubKeys()
+	producers := s.nsqlookupd.DB.findProducers("topic", topicName, "")
 	producers = producers.FilterByActive(s.nsqlookupd.opts.InactiveProducerTimeout,
 		s.nsqlookupd.opts.TombstoneLifetime)
 	return map[string]interface{}{
@@ -257,20 +262,24 @@ type node struct {
 }
 
 func (s *httpServer) doNodes(w http.ResponseWriter, req *http.Request, ps httprouter.Params) (interface{}, error) {
+	// the nodes, their topics and the tombstone flags are read in one critical section
+	s.nsqlookupd.DB.RLock()
+	defer s.nsqlookupd.DB.RUnlock()
+
 	// dont filter out tombstoned nodes
-	producers := s.nsqlookupd.DB.FindProducers("client", "", "").FilterByActive(
+	producers := s.nsqlookupd.DB.findProducers("client", "", "").FilterByActive(
 		s.nsqlookupd.opts.InactiveProducerTimeout, 0)
 	nodes := make([]*node, len(producers))
 	topicProducersMap := make(map[string]Producers)
 	for i, p := range producers {
-		topics := s.nsqlookupd.DB.LookupRegistrations(p.peerInfo.id).Filter("topic", "*", "").Keys()
+		topics := s.nsqlookupd.DB.lookupRegistrations(p.peerInfo.id).Filter("topic", "*", "").Keys()
 
 		// for each topic find the producer that matches this peer
 		// to add tombstone information
 		tombstones := make([]bool, len(topics))
 		for j, t := range topics {
 			if _, exists := topicProducersMap[t]; !exists {
-				topicProducersMap[t] = s.nsqlookupd.DB.FindProducers("topic", t, "")
+				topicProducersMap[t] = s.nsqlookupd.DB.findProducers("topic", t, "")
 			}
 
 			topicProducers := topicProducersMap[t]
